@@ -168,6 +168,9 @@ structure Sys where
       step of the uplink handler, in the same step as the publication to the application, and the last
       step of the join handler). -/
   notified : List Bytes := []
+  /-- …and, for the copies clause: (device, the frame's FCnt, whether the device copy was a relaxed
+      one) of every hand-over by the uplink handler. -/
+  handedUp : List (Bytes × Nat × Bool) := []
   deriving Repr, Inhabited
 
 def Sys.init (db : DB) : Sys := { db := db, fob := [], scheduled := [], threads := [], emitted := [], published := [], now := 1 }
@@ -411,7 +414,7 @@ def stepUplink (E : BlockFn) (sys : Sys) (s : UpSt) (fault : Bool) : Sys × List
   | _ =>
     -- hand over to MAC processor / scheduler, publish to the application router; then the next matching device
     let ctx : Ctx := ⟨s.cur, s.cur.appEUI, s.gw, (s.msg.map (·.created)).getD 0⟩
-    let sys := { sys with published := sys.published ++ [⟨s.cur.appEUI, s.cur.eui, s.plain⟩], notified := sys.notified ++ [s.cur.eui] }
+    let sys := { sys with published := sys.published ++ [⟨s.cur.appEUI, s.cur.eui, s.plain⟩], notified := sys.notified ++ [s.cur.eui], handedUp := sys.handedUp ++ [(s.cur.eui, fcnt, s.cur.relaxed)] }
     let (sys', ts) := nextDevice sys s
     (sys', ts ++ [.notify s.p ctx])   -- the handler goes on (same thread); the message travels on its own
 
